@@ -26,9 +26,9 @@ def bounds(tier):
 
 
 def items(tier):
-    specs = models.rate_specs() + models.e3_specs(tier, variants=True)
+    specs = models.degenerate_specs() + models.rate_specs() + models.e3_specs(tier, variants=True)
     if tier == "quick":
-        specs = [(k, s) for k, s in specs if "|n0|" in k or k.endswith("|def|flat|-") or k.startswith("rate|")]
+        specs = [(k, s) for k, s in specs if "|n0|" in k or k.endswith("|def|flat|-") or k.startswith(("rate|", "deg|"))]
     its = []
     for ch in E.chunks(specs, 10):
         its.append({"key": f"{ch[0][0]}..{ch[-1][0]}", "kind": "models", "specs": [[k, s] for k, s in ch], "tier": tier,
